@@ -176,7 +176,7 @@ T('c13-enum-default', 'A ::= SEQUENCE { e ENUMERATED { x(3), y(7), z(9) } DEFAUL
 T('defaults-by-ref', 'A ::= SEQUENCE { b B DEFAULT TRUE, f B DEFAULT FALSE, i I DEFAULT 5, e E DEFAULT two, '
   'o O DEFAULT \'0102\'H, bs BS DEFAULT { one }, z INTEGER (0..7) }\nB ::= BOOLEAN\nI ::= INTEGER (0..20)\n'
   'E ::= ENUMERATED { one, two }\nO ::= OCTET STRING (SIZE(0..2))\nBS ::= BIT STRING { one(1), three(3) }',
-  feats={'combo', 'ref', 'opt'})
+  feats={'heavy'})
 T('defaults-by-ref-small', 'A ::= SEQUENCE { b B DEFAULT TRUE, f B DEFAULT FALSE, e E DEFAULT two }\nB ::= BOOLEAN\n'
   'E ::= ENUMERATED { one, two }', feats={'ref', 'opt'})
 T('components-of-chain', 'Gamma ::= SEQUENCE { g BOOLEAN, h INTEGER (0..7) OPTIONAL }\n'
